@@ -86,7 +86,7 @@ def main():
 
 
 # properties whose check is wired, green on /repo and reviewed
-CLAIM = ["C01", "C02", "C03", "C04", "C05", "C06", "C07", "C08", "C14", "C09", "C10", "C11", "C12", "C13", "C15", "C17", "C18", "C20"]
+CLAIM = ["C01", "C02", "C03", "C04", "C05", "C06", "C07", "C08", "C14", "C19", "C09", "C10", "C11", "C12", "C13", "C15", "C17", "C18", "C20"]
 NA = {}
 
 if __name__ == "__main__":
